@@ -3,7 +3,7 @@
 (*             reordering / renaming.                                                                                *)
 (* Mode "C03": values computed by the generated C and Python code for every class, rates, NLA residuals.             *)
 (* Mode "C17": declared structure of the generated code against the AnalyserModel.                                   *)
-EXTENDS System, LoggerObs, KnownFindings
+EXTENDS External, LoggerObs, KnownFindings
 CONSTANT Mode
 VARIABLE l
 Init == l = 1
@@ -80,6 +80,57 @@ C17Problems(ev) ==
             \cup (IF Len(ev.py.variableInfo) = nvv /\ (\A i \in DOMAIN ev.py.variableInfo : Row(ev.py.variableInfo[i], "v", i)) /\ (\A i \in DOMAIN ev.py.stateInfo : Row(ev.py.stateInfo[i], "s", i)) THEN {} ELSE {"Python info tables differ from the analyser variables"})
             \cup (IF ev.c.infoFits THEN {} ELSE {"an info string does not fit its declared buffer"})
             \cup (IF SR(ev.c.declared) \subseteq SR(ev.c.defined) /\ Len(ev.c.defined) = Cardinality(SR(ev.c.defined)) /\ Len(ev.c.declared) = Cardinality(SR(ev.c.declared)) THEN {} ELSE {"a function declared in the interface is not defined exactly once"})
+\* ---------------------------------------------------------------- C20: external variables
+MESSAGE == "M"
+ByName(vars, n) == vars[CHOOSE i \in DOMAIN vars : vars[i].name = n]
+HasName(vars, n) == \E i \in DOMAIN vars : vars[i].name = n
+Count(seq, P(_)) == Cardinality({i \in DOMAIN seq : P(seq[i])})
+C20Problems(ev) ==
+    LET sys == ev.sys  m == ev.marked  p == ev.plain  nv == NonVoi(ev.marked)  pv == NonVoi(ev.plain)
+        ext == ExtClasses(sys)
+        plainValid == p.type \in ValidTypes
+        EqTypeOf(a, v) == {a.eqs[j + 1].type : j \in {a.computedBy[v.id][k] : k \in DOMAIN a.computedBy[v.id]} \ {-1}}    \* -1: the hidden placeholder of a constant
+        groupNames == MarkedNames(sys) \ {"foreign"}
+        MarksOf(n) == {i \in DOMAIN sys.marks : sys.marks[i].name = n}
+        NeedsPrimaryMsg(n) == n \in ext /\ HasName(nv, n) /\ (Cardinality(MarksOf(n)) > 1 \/ \E i \in MarksOf(n) : sys.marks[i].comp # ByName(nv, n).comp)
+        InitKnown(d) == IsExt(sys, d) \/ (d \in ClassNamesOf(sys) /\ Get(sys, d).role \in {"const", "state"})
+        CallsOk(calls) == \A i \in DOMAIN calls : LET cl == calls[i] IN
+                              /\ cl.name \in ext
+                              /\ \A d \in DeclaredDeps(sys, cl.name) : (cl.phase >= 2 \/ InitKnown(d)) => d \in SR(cl.defined)
+    IN
+    (IF ev.validErrors = 0 /\ (\A i \in DOMAIN ev.applied : ev.applied[i].found /\ ev.applied[i].added /\ \A k \in DOMAIN ev.applied[i].depsAdded : ev.applied[i].depsAdded[k]) THEN {} ELSE {"harness: model invalid or a mark could not be applied"})
+    \cup (IF ev.expect = ExpectOf(sys) THEN {} ELSE {"harness: echoed expectation differs from the specification's"})
+    \cup (IF m.type \in TypeAfter(sys) /\ m.analyserErrors = 0 THEN {} ELSE {"marking does not give a valid model of the expected type"})
+    \cup (IF m.type \notin ValidTypes THEN {} ELSE
+          (IF {nv[i].name : i \in {k \in DOMAIN nv : nv[k].type = "external"}} = ext /\ Len(nv) = Cardinality({nv[i].name : i \in DOMAIN nv}) THEN {} ELSE {"the external variables are not exactly the marked classes"})
+          \cup (IF \A i \in DOMAIN nv : nv[i].type = "external" => (Len(m.computedBy[nv[i].id]) = 1 /\ LET e == m.eqs[m.computedBy[nv[i].id][1] + 1] IN e.type = "external" /\ e.vars = <<nv[i].id>>)
+                THEN {} ELSE {"an external variable does not have exactly one placeholder equation"})
+          \cup (IF \A i \in DOMAIN m.eqs : m.eqs[i].type = "external" => \E k \in DOMAIN nv : nv[k].type = "external" /\ m.eqs[i].vars = <<nv[k].id>> THEN {} ELSE {"an external equation that belongs to no external variable"})
+          \cup (IF \A n \in ClassNamesOf(sys) \ ext : Untouched(sys, n) =>
+                    /\ HasName(nv, n) /\ ByName(nv, n).type = VarType(Get(sys, n))
+                    /\ (plainValid /\ HasName(pv, n) => ByName(nv, n).type = ByName(pv, n).type /\ ByName(nv, n).kind = ByName(pv, n).kind /\ EqTypeOf(m, ByName(nv, n)) = EqTypeOf(p, ByName(pv, n)))
+                THEN {} ELSE {"a variable that does not depend on the external variables changed type or equation"})
+          \cup (IF (sys.nla # NoneS /\ "u" \notin ext) => (HasName(nv, "u") /\ plainValid /\ HasName(pv, "u") /\ ByName(nv, "u").type = ByName(pv, "u").type /\ EqTypeOf(m, ByName(nv, "u")) = {"nla"}) THEN {} ELSE {"the implicit unknown changed type or equation"})
+          \cup (IF HasStates(sys) = (\E i \in DOMAIN m.vars : m.vars[i].kind = "voi" /\ m.vars[i].name = "t") THEN {} ELSE {"variable of integration wrong"})
+          \cup (IF Dense(m, "s") /\ Dense(m, "v") THEN {} ELSE {"indices are not dense and unique"})
+          \cup (IF ext = {} /\ plainValid => (m.type = p.type /\ m.vars = p.vars /\ m.eqs = p.eqs) THEN {} ELSE {"marks that must be ignored changed the analysis"})
+          \cup (IF \A i \in DOMAIN m.issues : m.issues[i].level = MESSAGE THEN {} ELSE {"marking produced something stronger than a message"})
+          \cup (IF /\ Count(m.issues, LAMBDA x : x.rule = "ANALYSER_EXTERNAL_VARIABLE_DIFFERENT_MODEL") = Cardinality(MarksOf("foreign"))
+                   /\ Count(m.issues, LAMBDA x : x.rule = "ANALYSER_EXTERNAL_VARIABLE_VOI") = (IF MarksOf("t") = {} THEN 0 ELSE 1)
+                   /\ Count(m.issues, LAMBDA x : x.rule = "ANALYSER_EXTERNAL_VARIABLE_USE_PRIMARY_VARIABLE") = Cardinality({n \in ext : NeedsPrimaryMsg(n)})
+                   /\ \A n \in ext : NeedsPrimaryMsg(n) => \E i \in DOMAIN m.issues : m.issues[i].rule = "ANALYSER_EXTERNAL_VARIABLE_USE_PRIMARY_VARIABLE" /\ m.issues[i].var = n /\ m.issues[i].comp = ByName(nv, n).comp
+                   /\ Len(m.issues) = Cardinality(MarksOf("foreign")) + (IF MarksOf("t") = {} THEN 0 ELSE 1) + Cardinality({n \in ext : NeedsPrimaryMsg(n)})
+                THEN {} ELSE {"a mark on the variable of integration, a non-primary variable or a foreign variable is not reported with exactly one message"})
+          \cup (IF LogCoherent(m.alog) THEN {} ELSE {"incoherent issue list"})
+          \cup (IF "values" \notin DOMAIN ev THEN {"generated code was not produced"} ELSE
+                (IF ev.c.built /\ ev.c.ran /\ ev.c.diag = "" THEN {} ELSE {"generated C does not compile cleanly / run"})
+                \cup (IF ev.py.built /\ ev.py.ran THEN {} ELSE {"generated Python does not run"})
+                \cup (IF ev.usesCallback = (ext # {}) /\ ev.pyUsesCallback = (ext # {}) THEN {} ELSE {"the generated code takes a callback exactly when there are external variables"})
+                \cup (IF \A i \in DOMAIN ev.values : ev.values[i].known /\ ev.values[i].ok1 THEN {} ELSE {"a value is wrong after the first step"})
+                \cup (IF \A i \in DOMAIN ev.values : ev.values[i].known /\ ev.values[i].ok2 THEN {} ELSE {"a value does not follow the callback's new value in the second step"})
+                \cup (IF CallsOk(ev.callsC) /\ CallsOk(ev.callsPy) THEN {} ELSE {"the callback is called before a declared dependency is computed"})
+                \cup (IF ext # {} => (\A n \in ext : \E i \in DOMAIN ev.callsC : ev.callsC[i].name = n /\ ev.callsC[i].phase >= 4) /\ (\A n \in ext : \E i \in DOMAIN ev.callsPy : ev.callsPy[i].name = n /\ ev.callsPy[i].phase >= 4) THEN {} ELSE {"an external variable is not obtained through the callback in the second step"})))
+
 \* Known deviation NlaOrderDependence: exactly the recorded family (one-unknown implicit equation + implicit equation sharing the
 \* unknown with an initialised variable); one listing order gives the expected type, the other "overconstrained"; nothing else is wrong.
 Dev(d, ev) ==
@@ -87,14 +138,14 @@ Dev(d, ev) ==
     /\ C05Problems(ev) = {"classification changes with the order / names of components, variables or equations"}
     /\ \A i \in DOMAIN ev.variants : ev.variants[i].type \in {ExpectedType(ev.sys), "overconstrained"}
     /\ ev.variants[1].type = ExpectedType(ev.sys)
-Problems(ev) == CASE Mode = "C05" -> C05Problems(ev) [] Mode = "C03" -> C03Problems(ev) [] Mode = "C17" -> C17Problems(ev)
+Problems(ev) == CASE Mode = "C05" -> C05Problems(ev) [] Mode = "C03" -> C03Problems(ev) [] Mode = "C17" -> C17Problems(ev) [] Mode = "C20" -> C20Problems(ev)
 Next == /\ l <= Len(TraceLog) /\ l' = l + 1
         /\ LET ev == TraceLog[l] IN
            IF ev.e = "Reset" THEN TRUE
-           ELSE IF ev.e # "system" THEN Verdict("bad", l, ev.sc, <<ev.e>>)
+           ELSE IF ev.e # (IF Mode = "C20" THEN "ext" ELSE "system") THEN Verdict("bad", l, ev.sc, <<ev.e>>)
            ELSE IF Problems(ev) = {} THEN TRUE
            ELSE IF \E d \in KnownDeviations : Dev(d, ev) THEN Verdict("known", l, ev.sc, CHOOSE d \in KnownDeviations : Dev(d, ev))
-           ELSE Verdict("bad", l, ev.sc, <<Problems(ev), ev.sys, ev.variants[1].type>>)
+           ELSE Verdict("bad", l, ev.sc, <<Problems(ev), ev.sys, IF Mode = "C20" THEN ev.marked.type ELSE ev.variants[1].type>>)
 Spec == Init /\ [][Next]_l
 Accepted == LET d == TLCGet("stats").diameter IN PrintT(<<"DEPTH", d>>) /\ d - 1 = Len(TraceLog)
 =============================================================================
